@@ -402,6 +402,11 @@ pub fn run_on_this_thread(plan: &Plan, keep_trace: bool) -> RunOutput {
                 if injected {
                     injected_panic = Some(w.crash_counter.get().saturating_sub(1));
                 }
+                if w.handler_phase.get() && w.in_stabilise.get() {
+                    // propagation had completed: let the model close the round's propagation phase
+                    let at = w.trace.borrow().len();
+                    w.model.borrow_mut().finish_propagation(at);
+                }
                 panics.push(msg.clone());
                 w.log(Ev::Panic { msg, injected, ctx });
                 break;
